@@ -24,7 +24,7 @@ BUDGET = {
     "thorough": {"worlds": 4000, "runs": 150, "wall_cap": 2400, "world_wall": 120},
 }
 REQUIRED_PROBES = ["multi_page", "empty_middle_page", "fault_between_pages", "request_reused", "reuse_during",
-                   "cancelled_mid_iteration", "rest_reply_body_lost", "nonpaged_method", "map_paged", "scalar_paged", "concurrent_pagers",
+                   "cancelled_mid_iteration", "rest_reply_body_lost", "attrs_read_between_page_fetches", "nonpaged_method", "map_paged", "scalar_paged", "concurrent_pagers",
                    "nonretryable_between_pages", "explicit_options_multi_page", "async_multi_page", "pages_consumed", "rest_fetch",
                    "rest_multi_page", "repeated_cursor_value"]
 ASSUMPTIONS = ["corners excluded from the grammar: both page_size and max_results in one request; wrapper-typed "
@@ -332,6 +332,8 @@ def gen_op(spec, rng, codec, fs, s, m, cls, oid, client):
     attrs = ["next_page_token"] + [g["name"] for g in resp["fields"] if not g.get("repeated") and not g.get("map")
                                    and g["type"] in ("int32", "string") and g["name"] != "next_page_token"]
     op["read_attrs"] = attrs
+    if op.get("consume") == "pages" and rng.random() < 0.6:
+        op["read_attrs_each_page"] = True      # the caller looks at pager.next_page_token / total_size after every page
     if client == "async":
         op["think"] = rng.choice([0.0, 0.0, 0.002, 0.01])
     return op
@@ -714,9 +716,13 @@ def judge_op(spec, codec, scenario, op, evs, probes):
         if e["k"] == "attr":
             if "error" in e:
                 return V("attr_error", f"pager.{e['name']} raised {e['error']}")
-            want = last.get(e["name"], "" if e["name"] in ("next_page_token", "etag") else 0)
+            ref = pages[e["page"] - 1] if e.get("page") and e["page"] <= len(pages) else last
+            if e.get("page"):
+                _bump(probes, "attrs_read_between_page_fetches")
+            want = ref.get(e["name"], "" if e["name"] in ("next_page_token", "etag") else 0)
             if e["value"] != want:
-                return V("stale_attr", f"pager.{e['name']} == {e['value']!r} after iteration; most recent page has {want!r}")
+                return V("stale_attr", f"pager.{e['name']} == {e['value']!r} " + (f"while page {e['page']} is the most recent one"
+                         if e.get("page") else "after iteration") + f"; that page has {want!r}")
     return []
 
 
